@@ -12,8 +12,9 @@ import SqiModel.Dim2
      d2.norm q c1 c2 | d2.bil q v11 v12 v21 v22 | d2.short q B(4) | d2.coef q a0 a1 b0 b1 t0 t1
      d2.cvp q B(4) t0 t1 | d2.qf q B(4) | d2.bound na da nb db | d2.contains B(4) c1 c2
      d2.bac q x y tmc0 tmc1 B(4) bound p | d2.enum q tmc0 tmc1 B(4) bound maxtries p
+     d2.enumeq q tmc0 tmc1 B(4) bound maxtries v0 v1   (condition: vec == (v0,v1): membership oracle of the enumeration)
      d2.filter B(4) t0 t1 qf dist_bound p max_tries
-     resp.model p resplen denom content lll(16) cand(4)*  -> x(5) found count | fzi bb(4)
+     resp.model p resplen denom content lll(16) cand(4)*  -> x(5) found count | fzi bb(4) | hyp (4 flags: dg>0, division exact, 2*norm even, det lll != 0)
    `abort` = the C code would divide by zero / take the root of a negative number (GMP aborts). -/
 namespace SqiModel.Drv.Lll
 open SqiModel SqiModel.Util SqiModel.Quat SqiModel.Lll SqiModel.Dim2
@@ -126,6 +127,12 @@ def handleInts : String → List Int → Option String
       | [bound, mt, p] =>
         pure (if p = 0 then "abort" else showFound (enumerateShortVec (cvpCondition p) q ⟨t0, t1⟩ b bound mt.toNat))
       | _ => none
+  | "d2.enumeq", q :: t0 :: t1 :: l => do
+      let (b, l) ← m2Of l
+      match l with
+      | [bound, mt, v0, v1] =>
+        pure (showFound (enumerateShortVec (eqCondition ⟨v0, v1⟩) q ⟨t0, t1⟩ b bound mt.toNat))
+      | _ => none
   | "d2.filter", l => do
       let (b, l) ← m2Of l
       match l with
@@ -140,7 +147,14 @@ def handleInts : String → List Int → Option String
       let bs := match respBounds p rl.toNat denom content lll with
         | some (fzi, bb) => toHex fzi ++ " " ++ intsToHex bb
         | none => "abort"
-      pure (showElem r.x ++ " " ++ b01 r.found ++ " " ++ toHex r.count ++ " | " ++ bs)
+      -- the three conditions the C code only asserts (hypotheses of `sample_response_found_pos`), evaluated on this input:
+      -- divisor positive, scalar division exact, 2*norm even for every candidate consumed
+      let dg := div2 (denom * denom * content)
+      let g := ((lll.transpose).mul (gramP p)).mul lll
+      let gram := respGram p denom content lll
+      let hyp := b01 (decide (0 < dg)) ++ b01 (g.scalarDiv dg).2 ++
+        b01 ((cands.take r.count).all fun w => (gram.qfEval w) % 2 == 0) ++ b01 (lll.invWithDet.2 != 0)
+      pure (showElem r.x ++ " " ++ b01 r.found ++ " " ++ toHex r.count ++ " | " ++ bs ++ " | " ++ hyp)
   | _, _ => none
 
 def handle : List String → Option String
